@@ -272,12 +272,16 @@ def check(case, ctx):
     pgv = float(np.array(pd["pg"]["value"]).reshape(-1)[0])
     ucv = np.array(pd["uc"]["value"], dtype=float).reshape(-1)
     if not sp.get("alg"):
-        try:
+        k = int(rng.integers(0, m["N"]))
+        xk = d["nodes"][:, k]
+        xf = None
+        try:        # only the calls into rockit are guarded: what they raise is rockit's, everything after is the harness'
             F = ocp.discrete_system()
-            k = int(rng.integers(0, m["N"]))
-            xk = d["nodes"][:, k]
             out = F(x0=xk, u=ca.DM(0, 1), T=tk[k + 1] - tk[k], t0=tk[k], p=ca.vertcat(pgv, ucv[k]), z0=ca.DM(0, 1))
             xf = DMa(out["xf"]).reshape(-1)
+        except Exception as ex:
+            fails.append(Fail("discrete_system-raises", feats, {"message": str(ex).strip().splitlines()[-1][:140]}))
+        if xf is not None:
             if m["cls"] != "DC":
                 # for shooting methods discrete_system is the very map the NLP uses
                 tol = 1e-9 if not builtin else 1e-6
@@ -288,30 +292,32 @@ def check(case, ctx):
             R_ = ref.StageRef(sp)
             base_ = {"pg": np.array([pgv]), "uc": np.array([ucv[k]])}
             solk = solve_ivp(lambda t, y: R_.rhs(y, base_, t)[0], [tk[k], tk[k + 1]], np.array(xk, dtype=float), method="DOP853", rtol=1e-13, atol=1e-13)
-            hk = (tk[k + 1] - tk[k]) / max(Ms)
-            # relative to the size of the state: the one-interval error of any scheme is proportional to it
+            # how far a scheme of that kind is from the flow on this very interval is measured, not guessed: the numpy reference scheme
+            # (explicit Euler, or RK4 for everything else: rockit's discrete_system of DirectCollocation is an RK map) with the same
+            # number of sub-steps; discrete_system may be off by a small multiple of that, relative to the size of the state
+            ref_scheme = "expl_euler" if case["scheme"] == "expl_euler" else "rk"
+            xr_ = ref.propagate(R_, ref_scheme, np.array(xk, dtype=float), base_, tk[k], tk[k + 1], max(Ms))[0]
             scale_ = 1.0 + max(float(np.max(np.abs(xk))), float(np.max(np.abs(solk.y[:, -1]))))
-            bound = {"expl_euler": 10 * hk}.get(case["scheme"], 2e-3 * (hk / 0.1) ** 3 + 1e-6) * scale_
+            bound = 20.0 * float(np.max(np.abs(xr_ - solk.y[:, -1]))) + 1e-6 * scale_
             if float(np.max(np.abs(xf - solk.y[:, -1]))) > bound:
                 fails.append(Fail("discrete_system-not-the-same-flow", feats, {"interval": k, "discrete_system": xf, "reference_flow": solk.y[:, -1], "bound": bound}))
-        except Exception as ex:
-            fails.append(Fail("discrete_system-raises", feats, {"message": str(ex).strip().splitlines()[-1][:140]}))
-        try:
+        from scipy.integrate import solve_ivp
+        R = ref.StageRef(sp)
+        k = 0
+        xk = np.array(case["x0"], dtype=float)
+        base = {"pg": np.array([pgv]), "uc": np.array([ucv[k]])}
+        sol = solve_ivp(lambda t, y: R.rhs(y, base, t)[0], [tk[0], tk[1]], xk, method="DOP853", rtol=1e-13, atol=1e-13)
+        # parameters in the order they appear in the system (only those the model depends on)
+        names = [nme for nme in ("pg", "uc") if any(nme in E.syms_in(e) for _, ex in sp["der"] for e in ex)]
+        pvec = ca.DM([{"pg": pgv, "uc": ucv[k]}[nme] for nme in names]) if names else ca.DM(0, 1)
+        xs = None
+        try:        # only the calls into rockit are guarded
             sim = ocp.sys_simulator(intg="cvodes", intg_options={"reltol": 1e-10, "abstol": 1e-12})
-            from scipy.integrate import solve_ivp
-            R = ref.StageRef(sp)
-            k = 0
-            xk = np.array(case["x0"], dtype=float)
-            base = {"pg": np.array([pgv]), "uc": np.array([ucv[k]])}
-            sol = solve_ivp(lambda t, y: R.rhs(y, base, t)[0], [tk[0], tk[1]], xk, method="DOP853", rtol=1e-13, atol=1e-13)
-            # parameters in the order they appear in the system (only those the model depends on)
-            names = [nme for nme in ("pg", "uc") if any(nme in E.syms_in(e) for _, ex in sp["der"] for e in ex)]
-            pvec = ca.DM([{"pg": pgv, "uc": ucv[k]}[nme] for nme in names]) if names else ca.DM(0, 1)
             xs = DMa(sim(x=xk, u=ca.DM(0, 1), p=pvec, t0=tk[0], dt=tk[1] - tk[0], z_initial_guess=ca.DM(0, 1))["xf"]).reshape(-1)
-            if not close(xs, sol.y[:, -1], 1e-7, 1e-8):
-                fails.append(Fail("sys_simulator-differs-from-reference-flow", feats, {"simulator": xs, "reference": sol.y[:, -1]}))
         except Exception as ex:
             fails.append(Fail("sys_simulator-raises", feats, {"message": str(ex).strip().splitlines()[-1][:140]}))
+        if xs is not None and not close(xs, sol.y[:, -1], 1e-7, 1e-8):
+            fails.append(Fail("sys_simulator-differs-from-reference-flow", feats, {"simulator": xs, "reference": sol.y[:, -1]}))
     return fails
 
 
